@@ -51,6 +51,11 @@ CHECKS = {
    note='time.time() in slimta.queue is rebound to the virtual clock; fake redis client.',
    technique='stateless deviation-bounded model checking on a virtual event loop and clock with online monitors at quiescent points',
    design='5/C12'),
+ 'C13': dict(level='model_checking', engine='E1-vloop',
+   text='Queue world restricted to failure histories on all four backends: whole-message and per-recipient permanent failures with equal/different replies, retry exhaustion with grouped transient replies, unexpected exceptions, failing bounces, 1..3 (4) recipients, 8-bit original, empty sender, bounce factories default/headers-only/None, own or separate bounce queue; all outcome histories with <= dd non-default outcomes x schedules with <= d deviations.  Oracle: per failure event (attempt ordinal x permanent|exhausted) the bounces built and enqueued equal the reference grouping by (code, message); each bounce has the null sender, the original sender as only recipient, lists exactly its group, quotes the reply and embeds the original header block (+ body) unchanged; nothing for a null sender; messages created <= originals + failure groups.',
+   note='Reply texts differ by recipient position parity so grouping is observable; the CRLF in front of a MIME boundary belongs to the boundary.',
+   technique='stateless deviation-bounded model checking of the real queue with a reference bounce-grouping oracle',
+   design='5/C13'),
  'C16': dict(level='exploration', engine='E1-vloop',
    text='Every recipient list of length 0..4 over 6-7 addresses (duplicates, mixed-case, missing/empty domains) x every chain (order and repetition) of <= 2 (quick) / <= 3 (thorough) policies out of 11 (both splits, 4 forwarding rule sets, 3 header policies, a policy returning its input, a policy returning input + copy) x Date/Message-Id present/absent, through the real Queue.enqueue on a recording storage; oracle: independent reference model of the policies (recipient multiset and grouping), same sender/body/original headers, aliasing probe on the written objects, Date/Message-Id/Received rules.',
    note='Grouping is judged by the documented policy definitions; text of added headers and order of written envelopes are not judged; collapse of an original duplicate would be tolerated (never observed).',
